@@ -52,9 +52,8 @@ def is_sequence_type_restriction(st1: str, st2: str) -> bool:
 
     if not st1 or st1[0] == '{' or not st2 or st2[0] == '{':
         return False
-    elif st2 in ('empty-sequence()', 'none') and \
-            (st1 in ('empty-sequence()', 'none') or st1.endswith(('?', '*'))):
-        return True
+    elif st2 in ('empty-sequence()', 'none'):
+        return st1 in ('empty-sequence()', 'none') or st1.endswith(('?', '*'))
 
     # check occurrences
     if st1[-1] not in '?+*':
